@@ -126,11 +126,14 @@ where
 '''
 
 
-def ubits(k):
-    """typenum type expression for the number k from its binary digits"""
-    if k == 0:
-        return "UTerm"
+def ubits(k, lead=0):
+    """typenum type expression for the number k from its binary digits; `lead` > 0 puts that many zero digits in front - a
+    spelling no typenum alias or arithmetic produces, but a legal `ArrayLength` (every `UInt<N: ArrayLength, B>` is one)"""
     s = "UTerm"
+    for _ in range(lead):
+        s = f"UInt<{s}, B0>"
+    if k == 0:
+        return s
     for ch in bin(k)[2:]:
         s = f"UInt<{s}, B{ch}>"
     return s
@@ -204,6 +207,14 @@ def build_rows(tier, seed):
                 rows.append((ty, f"U{n}", n, {"addr": False, "val": False, "cls": "named"}))
     for n in list(range(0, 65)) + [100, 127, 128, 255, 256, 1000, 1023, 1024]:
         rows.append(("CD", f"U{n}", n, {"cd": True, "cls": "const_default_built"}))
+    # (a') the same lengths spelled with leading zero digits (distinct storage shapes of the same size)
+    for (name, _decl, ty, zst, val) in FIXED:
+        for n in list(range(0, 18)) + [31, 32, 33, 64, 255, 256, 1000, 1024]:
+            for lead in (1, 2, 3):
+                rows.append((ty, ubits(n, lead), n, {"addr": True, "val": False, "cls": "leading_zero_digits"}))
+    for n in list(range(0, 18)) + [64, 255, 1000]:
+        for lead in (1, 2):
+            rows.append(("CD", ubits(n, lead), n, {"cd": True, "cls": "const_default_built_leading_zero_digits"}))
     # (b) random element types x random digit strings
     tg = TypeGen(rng)
     count = 1000 if tier == "quick" else 8000
@@ -216,7 +227,8 @@ def build_rows(tier, seed):
         if k >= (1 << 63):
             k = (1 << 63) - 1
         use_bits = rng.random() < 0.8 or k > 1024
-        nty = ubits(k) if use_bits else f"U{k}"
+        lead = rng.choice([1, 1, 2, 5]) if use_bits and k.bit_length() <= 58 and rng.random() < 0.15 else 0
+        nty = ubits(k, lead) if use_bits else f"U{k}"
         rows.append((ty, nty, k, {"addr": k <= 600, "val": False, "cls": "random"}))
     return rows, tg.decls
 
@@ -357,7 +369,7 @@ def run(root, pid, tier, seed):
                for i in (0, 17, len(rows) // 2, len(rows) - 3, len(rows) - 2, len(rows) - 1)]
     return E.evidence(
         pid, tier, seed, "exploration", len(rows) + sum(per_cfg.values()), len(nontrivial),
-        "rows = (element type, type-level length) compiled into generated Rust programs. Table, enumerated completely: every N in 0..=1024 x 14 element layouts (u8..u128, (), padded tuples, [u8;3], 64-byte array, align(16), align(64), aligned zero-sized type, packed struct) plus the 123 typenum constants above 1024 (2^k, 2^k-1, 10^k, 3600; up to 2^63 for zero-sized elements, N*64 < 2^60 otherwise); ConstDefault-built arrays for 73 lengths read back through the slice view; random rows: element types from a grammar (primitives, tuples, arrays, structs under repr(Rust|C|packed|align), PhantomData, [u64;0], nested GenericArray) x random binary digit strings to depth 62 written as UInt<...> types. "
+        "rows = (element type, type-level length) compiled into generated Rust programs. Table, enumerated completely: every N in 0..=1024 x 14 element layouts (u8..u128, (), padded tuples, [u8;3], 64-byte array, align(16), align(64), aligned zero-sized type, packed struct) plus the 123 typenum constants above 1024 (2^k, 2^k-1, 10^k, 3600; up to 2^63 for zero-sized elements, N*64 < 2^60 otherwise); ConstDefault-built arrays for 73 lengths read back through the slice view; 26 lengths x 14 layouts spelled with one to three leading zero digits (legal length types no typenum alias produces); random rows: element types from a grammar (primitives, tuples, arrays, structs under repr(Rust|C|packed|align), PhantomData, [u64;0], nested GenericArray) x random binary digit strings to depth 62 written as UInt<...> types. "
         "Oracle: the native array [T; N] under the same compiler: N::USIZE, size_of, align_of, size of struct{u8, array}, field offset after a u8, as_slice pointer range == the array's own extent, address of element i == base + i*size_of::<T>() and aligned, and for padding-free types three value read paths (AsRef<[T;N]>, indexing, into_array/from_array). "
         "Configurations: a reduced table (20 lengths x the 14 element layouts, all checks) is compiled against the crate built in 15 other configurations - release profile (cfg(debug_assertions) off) with the full and the empty feature set, no features, every single feature, the full set minus each feature, zeroize+serde+const-default without alloc, faster-hex. "
         "non-trivial = T not a plain u8/u16/u32/u64 or N not in {1,2,4,8}; distinct = distinct (element type, length type)",
